@@ -422,7 +422,7 @@ func solve(dir, base, text string, timeoutSec int) (SolverResult, []SolverResult
 			vch := make(chan SolverResult, len(vs))
 			for i, v := range vs {
 				go func(i int, v variant) {
-					pr := runOne(vctx, solvers[0], dir, fmt.Sprintf("%s_v%d", base, i), v.text, 4)
+					pr := runOne(vctx, solvers[0], dir, fmt.Sprintf("%s_v%d", base, i), v.text, 10)
 					pr.Solver += "/" + v.tag
 					vch <- pr
 				}(i, v)
